@@ -23,6 +23,7 @@ type deferRec struct {
 }
 
 type Frame struct {
+	callBind []Val // bindings of the closure being called under contract
 	u      *Unit
 	fn     *ssa.Function
 	prefix string
@@ -1084,6 +1085,17 @@ func (fr *Frame) execIndexAddr(st *State, i *ssa.IndexAddr) {
 		fr.safe(st, and(app("<=", "0", ix.T), app("<", ix.T, app("sl_len", x.T))), i.Pos(), "index", "slice index in range")
 		h := u.arrHeap(xt.Elem())
 		fr.vals[i] = Val{Loc: &Loc{Heap: h, Idx: []string{app("sl_base", x.T), app("ix", app("sl_off", x.T), ix.T)}, Ty: xt.Elem()}, Ty: i.Type()}
+		if sl, ok := i.X.(*ssa.Slice); ok && sl.Low != nil && u.dry == 0 {
+			// x = y[lo:...]: element k of x is element lo+k of y. A ground instance of the ix axiom (a tautology), stated so
+			// that quantified facts about y's elements (patterns over ix(off_y, _)) apply to elements reached through x.
+			if _, isSl := sl.X.Type().Underlying().(*types.Slice); isSl {
+				y := fr.get(sl.X)
+				lo := fr.get(sl.Low)
+				if y.T != "" && lo.T != "" {
+					u.assumeG(st, eq(app("ix", app("sl_off", x.T), ix.T), app("ix", app("sl_off", y.T), app("+", lo.T, ix.T))))
+				}
+			}
+		}
 	case *types.Pointer:
 		arr := xt.Elem().Underlying().(*types.Array)
 		fr.safeNonNil(st, x, i.Pos(), "index of nil array pointer")
